@@ -24,7 +24,7 @@ from harness import c04_gen as G, c04_model as Mo, c04_cases as Cs
 
 REGEN = ["Names"]
 RULE = ("templates are generated from a tree with ground truth: probe names bound at one of {context, page arg, "
-        "body <% %> assignment, def argument, enclosing-def local, loop target (body / def), module-level <%! %>, "
+        "page arg reassigned by a body <% %> block (once, twice, in a control block), body <% %> assignment, def argument, enclosing-def local, loop target (body / def), module-level <%! %>, "
         "imported def, builtin, nowhere} (x the name is also in the context or not) and read at one of 16 placements "
         "of the 9 read sites {body, top-level def, nested def, anonymous block, named block, call body, control "
         "line, tag attribute, filter} hosted in the body or in a top-level def, x strict_undefined x an unrelated "
@@ -205,7 +205,9 @@ def check_value(pred, obs, x, e, ml_vals):
     if m:
         k, rest = m.group(2), m.group(3)
         if k == "p":
-            return obs.startswith(PARAM_PREFIX) or obs in ("DICT", "NS", "UNDEF")
+            # a parameter cell; it may have been assigned again by the function's own code (ASG…/LOOP… markers) - which
+            # value it holds at the read is the reference interpreter's business (oracle)
+            return obs.startswith(PARAM_PREFIX + ("ASG", "LOOP")) or obs in ("DICT", "NS", "UNDEF")
         if k == "i":
             return obs == "DEF:" + x
         tags = {int(t) for t in rest.split("_") if t}
